@@ -152,6 +152,13 @@ impl Database {
             })
             .collect();
 
+        let non_unique_index_names: Vec<String> = table_def
+            .indexes()
+            .iter()
+            .filter(|idx| idx.index_type() == IndexType::BTree && !idx.is_unique())
+            .map(|idx| idx.name().to_string())
+            .collect();
+
         let hnsw_indexes: Vec<String> = table_def
             .indexes()
             .iter()
@@ -586,7 +593,8 @@ impl Database {
 
                 let mut index_btree = BTree::new(&mut *index_storage, index_root_page)?;
 
-                for (_row_key, _old_value, row_values) in &rows_to_delete {
+                let row_key_suffix = non_unique_index_names.contains(index_name);
+                for (row_key, _old_value, row_values) in &rows_to_delete {
                     let all_non_null = col_indices
                         .iter()
                         .all(|&idx| row_values.get(idx).is_some_and(|v| !v.is_null()));
@@ -597,6 +605,9 @@ impl Database {
                             if let Some(value) = row_values.get(col_idx) {
                                 Self::encode_value_as_key(value, &mut key_buf);
                             }
+                        }
+                        if row_key_suffix {
+                            key_buf.extend_from_slice(row_key);
                         }
                         let _ = index_btree.delete(&key_buf);
                     }
